@@ -159,6 +159,19 @@ func (w *ontWorld) genesis(h *otypes.Header) error {
 	return err
 }
 
+func (w *ontWorld) syncRaw(p *hscom.SyncBlockHeaderParam) (ok bool, panicked string) {
+	sink := common.NewZeroCopySink(nil)
+	p.Serialization(sink)
+	panicked = vio.Safe(func() {
+		_, _, err := w.sb.Call(hs.SyncBlockHeader, nativekit.Tx(w.op.Address), sink.Bytes())
+		ok = err == nil
+	})
+	if panicked != "" {
+		w.sb.Cache.Reset()
+	}
+	return
+}
+
 func (w *ontWorld) syncHeaders(hs_ ...*otypes.Header) (err error, panicked string) {
 	p := &hscom.SyncBlockHeaderParam{ChainID: w.chain, Address: w.op.Address}
 	for _, h := range hs_ {
